@@ -36,10 +36,11 @@ Section Core.
     | y :: l', S j' => y :: set_nth l' j' x
     | [], _ => []
     end.
+  (* result = identity; result(i, N) = t_i      /      result(i, i) = s_i *)
   Definition translation (t : list T) : list (list T) :=
-    let N := length t in map (fun '(i, ti) => set_nth (identity_row N i) N ti) (combine (seq 0 N) t).
+    let N := length t in map (fun i => set_nth (identity_row N i) N (nth i t zero)) (seq 0 N).
   Definition scaling (s : list T) : list (list T) :=
-    let N := length s in map (fun '(i, si) => set_nth (identity_row N i) i si) (combine (seq 0 N) s).
+    let N := length s in map (fun i => set_nth (identity_row N i) i (nth i s zero)) (seq 0 N).
 End Core.
 Arguments dot {T}. Arguments mat_vec {T}. Arguments col {T}. Arguments mat_mul {T}. Arguments affine_apply {T}.
 Arguments embed {T}. Arguments affine_compose {T}. Arguments identity_row {T}. Arguments affine_identity {T}.
